@@ -136,9 +136,9 @@ MANIFEST_TEXT = {
 
 NOT_APPLICABLE = {
     'C07': "quantifies over thread-pool sizes and work-stealing splits; Kani has no threads, Verus would need permission types threaded through rayon; the only sequential specs-side code wraps hibitset::BitProducer::split (a dependency)",
-    'C09': "lock-free SegQueue behind an Arc of opaque Box<dyn FnOnce(&mut World)> closures aliased by the world they mutate; no contract in reach of Verus/Kani can express it; Kani cannot build a World",
+    'C09': "the queue is a lock-free SegQueue behind an Arc of opaque Box<dyn FnOnce(&mut World)> closures, aliased by the very world the closures mutate (actions queue further actions on it while it is being drained): exactly-once, in-order execution over whole histories cannot be stated as a contract of any function within reach of Verus (no closures taking &mut, no aliasing of the drained queue) and Kani cannot build a World. What IS decided elsewhere: that maintain merges and purges before the queue runs (C05, World::maintain::hint.merged / hint.purged), that the lazy creation paths return fresh handles (C01: LazyUpdate::create_entity, LazyBuilder::build) and that the generation-checked Storage API refuses dead targets (C03)",
     'C10': "interleavings of relaxed atomics; the N3 sequentialisation used for every other property removes concurrency by construction",
-    'C14': "round trip through serde Serializer/Deserializer generics and concrete data formats; no contract within reach states or decides it",
+    'C14': "a round trip through serde's Serializer/Deserializer generics, visitor callbacks, FnMut id-mapping closures and concrete data formats; the (de)serialisation drivers (ser.rs/de.rs: macro-generated tuple impls over GenericRead/WriteStorage with `?` + From conversions) are outside the Verus subset and too large for Kani; no contract within reach states or decides it (the marker tables it relies on are decided under C15)",
     'C18': "subject is a proc-macro over syn/quote token streams; neither verifier handles those crates; correctness is over all input programs",
     'C19': "needs unwinding semantics (catch_unwind, drop guards during unwind); Verus has no panics, Kani treats a panic as a failed check",
 }
